@@ -1,6 +1,6 @@
 (* EffGraphProofs.v — generic lemmas about model/EffGraph.v (proved once, independent of the generated facts):
    [reach_b] is sound and complete w.r.t. the inductive [Reach]; [check_b] decides [NoReachableEffect]. *)
-From Coq Require Import List Bool PArith String FSets.FSetPositive Lia.
+From Coq Require Import List Bool Arith PArith String FSets.FSetPositive Lia.
 From Verif Require Import model.EffGraph.
 Import ListNotations.
 
@@ -171,6 +171,79 @@ Section Sound.
     apply He. rewrite step_unfold. apply (fold_step_fires e g V V); auto.
   Qed.
 
+  (* ---- the fuel of [reach_set] always suffices -------------------------------------------------------- *)
+  (* a node that a round adds is the target of some edge *)
+  Lemma fold_step_new g' : forall V x,
+    PS.mem x (fold_left (stepf off) g' V) = true -> PS.mem x V = true \/ exists e, In e g' /\ dst e = x.
+  Proof.
+    induction g' as [|e g' IH]; intros V x Hx; [left; exact Hx|].
+    cbn [fold_left] in Hx. destruct (IH _ _ Hx) as [H|[e' [Hin He']]].
+    - unfold stepf in H. destruct (fires off V e); [|left; exact H].
+      destruct (mem_add_inv _ _ _ H) as [->|H']; [right; exists e; split; [left; reflexivity|reflexivity] | left; exact H'].
+    - right. exists e'. split; [right; exact Hin | exact He'].
+  Qed.
+
+  Lemma filter_len_le {A} (p p' : A -> bool) l :
+    (forall x, In x l -> p' x = true -> p x = true) -> List.length (filter p' l) <= List.length (filter p l).
+  Proof.
+    induction l as [|a l IH]; intro H; [apply le_n|]. cbn [filter].
+    assert (IH' := IH (fun x Hx => H x (or_intror Hx))).
+    destruct (p' a) eqn:E'; destruct (p a) eqn:E; cbn [List.length]; try lia.
+    rewrite (H a (or_introl eq_refl) E') in E. discriminate.
+  Qed.
+
+  Lemma filter_len_eq {A} (p p' : A -> bool) l :
+    (forall x, In x l -> p' x = true -> p x = true) -> List.length (filter p' l) = List.length (filter p l) ->
+    forall x, In x l -> p' x = p x.
+  Proof.
+    induction l as [|a l IH]; intros H Hlen x Hx; [destruct Hx|].
+    assert (Hle := filter_len_le p p' l (fun y Hy => H y (or_intror Hy))).
+    cbn [filter] in Hlen.
+    destruct (p' a) eqn:E'; destruct (p a) eqn:E; cbn [List.length] in Hlen.
+    - destruct Hx as [->|Hx]; [congruence|]. apply IH; auto. intros y Hy; apply H; right; exact Hy.
+    - rewrite (H a (or_introl eq_refl) E') in E. discriminate.
+    - lia.
+    - destruct Hx as [->|Hx]; [congruence|]. apply IH; auto. intros y Hy; apply H; right; exact Hy.
+  Qed.
+
+  Definition pending (V : PS.t) : nat := List.length (filter (fun e => negb (PS.mem (dst e) V)) g).
+
+  Lemma pending_step V :
+    PS.equal (step g off V) V = false -> pending (step g off V) < pending V.
+  Proof.
+    intro Hne. unfold pending.
+    set (p := fun e => negb (PS.mem (dst e) V)). set (p' := fun e => negb (PS.mem (dst e) (step g off V))).
+    assert (Himp : forall e, In e g -> p' e = true -> p e = true).
+    { intros e _ H. unfold p, p' in *. rewrite negb_true_iff in *.
+      destruct (PS.mem (dst e) V) eqn:E; [|reflexivity]. rewrite (step_mono g off V _ E) in H. discriminate. }
+    assert (Hle := filter_len_le p p' g Himp).
+    destruct (Nat.eq_dec (List.length (filter p' g)) (List.length (filter p g))) as [Heq|Hneq]; [|lia].
+    exfalso. assert (Hpt := filter_len_eq p p' g Himp Heq).
+    assert (HE : PS.Equal (step g off V) V).
+    { intro x. split; intro Hx; [|apply step_mono; exact Hx].
+      rewrite step_unfold in Hx. destruct (fold_step_new g V x Hx) as [H|[e [Hin He]]]; [exact H|].
+      specialize (Hpt e Hin). unfold p, p' in Hpt. rewrite He in Hpt.
+      rewrite <- step_unfold in Hx. unfold PS.In in *. rewrite Hx in Hpt. cbn in Hpt.
+      destruct (PS.mem x V) eqn:E; [reflexivity | cbn in Hpt; discriminate]. }
+    apply PS.equal_1 in HE. congruence.
+  Qed.
+
+  Lemma iter_closed fuel : forall V, pending V < fuel -> closed_b g off (iter fuel g off V) = true.
+  Proof.
+    induction fuel as [|k IH]; intros V Hp; [lia|].
+    cbn [iter]. destruct (PS.equal (step g off V) V) eqn:He.
+    - apply stable_closed. exact He.
+    - apply IH. pose proof (pending_step V He). lia.
+  Qed.
+
+  Lemma pending_le V : pending V <= List.length g.
+  Proof.
+    unfold pending. generalize (fun e : edge => negb (PS.mem (dst e) V)). intro p.
+    induction g as [|a l IH]; [apply le_n|]. cbn [filter List.length]. destruct (p a); cbn [List.length]; lia.
+  Qed.
+
+  Lemma reach_set_closed : closed_b g off (reach_set g off roots) = true.
+  Proof. unfold reach_set. apply iter_closed. pose proof (pending_le (init roots)). lia. Qed.
 End Sound.
 
 (* ---- reach_b: sound always; complete whenever the computed set is closed (decided by computation) --- *)
@@ -191,6 +264,10 @@ Theorem reach_b_sound_complete g off roots :
 Proof.
   intros Hc b. split; [apply reach_b_sound | apply reach_b_complete; exact Hc].
 Qed.
+
+(* the unconditional statement: the fuel 1 + |edges| always suffices *)
+Theorem reach_b_iff g off roots b : reach_b g off roots b = true <-> Reach g off roots b.
+Proof. apply reach_b_sound_complete. apply reach_set_closed. Qed.
 
 (* ---- effect check ---------------------------------------------------------------------------------------- *)
 Lemma eff_eqb_eq a b : eff_eqb a b = true -> a = b.
